@@ -117,11 +117,25 @@ func copyLevels(in map[string]*network.PrivilegeLevel) map[string]*network.Privi
 // ---- one navigation session -----------------------------------------------------------------------
 
 type step struct {
-	kind   string // acquire | nope | command | commands | configs | config | interactive
+	kind   string // acquire | nope | command | commands | configs | config | interactive | stalled
 	target string
 }
 
 func (s step) String() string { return s.kind + ":" + s.target }
+
+// firstHop is the first privilege change on the tree path from cur to target: its command, the level it
+// leads to and whether the device asks for the secret.
+func firstHop(t *cm.TreeDev, cur, target string) (cmd, next string, auth bool) {
+	for n := target; n != ""; n = t.Levels[n].PreviousPriv {
+		if t.Levels[n].PreviousPriv == cur {
+			return t.Levels[n].Escalate, n, t.Levels[n].EscalateAuth
+		}
+		if n == cur {
+			return "", cur, false
+		}
+	}
+	return t.Levels[cur].Deescalate, t.Levels[cur].PreviousPriv, false
+}
 
 func runSession(w *sched.W, tag string, t *cm.TreeDev, root, desired string, start string, cache string, steps []step, maxChunk, env int) {
 	cfg := cm.Cfg()
@@ -142,6 +156,20 @@ func runSession(w *sched.W, tag string, t *cm.TreeDev, root, desired string, sta
 		var errs []error
 		var setupErr error
 		mark := 0
+		// "stalled": the device performs the next command line but its answer is withheld until the operation
+		// has timed out
+		armed := false
+		for _, m := range d.Modes {
+			orig := m.OnLine
+			m.OnLine = func(cd *dev.CLIDevice, line string) dev.Reply {
+				r := orig(cd, line)
+				if armed && line != "" {
+					armed = false
+					tr.StallAt = tr.Sent()
+				}
+				return r
+			}
+		}
 		e.Go("client", func() {
 			opts := cm.BaseOpts(tr, rd, 500*cm.Ms, 0)
 			opts = append(opts, options.WithPrivilegeLevels(copyLevels(t.Levels)), options.WithDefaultDesiredPriv(desired), options.WithAuthSecondary(t.Secret))
@@ -173,6 +201,14 @@ func runSession(w *sched.W, tag string, t *cm.TreeDev, root, desired string, sta
 				switch s.kind {
 				case "acquire", "nope":
 					err = n.AcquirePriv(s.target)
+				case "stalled":
+					if _, isLevel := t.Levels[d.Cur]; isLevel {
+						cmd, _, auth := firstHop(t, d.Cur, s.target)
+						armed = cmd != "" && !auth
+					}
+					err = n.AcquirePriv(s.target)
+					armed = false
+					tr.Release()
 				case "command":
 					_, err = n.SendCommand("show x")
 				case "commands":
@@ -214,6 +250,17 @@ func runSession(w *sched.W, tag string, t *cm.TreeDev, root, desired string, sta
 						vio("c04:unknown-target-not-refused", "step %d AcquirePriv(%q) returned %v", i, s.target, errs[i])
 					}
 					continue
+				case "stalled":
+					if cmd, next, auth := firstHop(t, mode, target); cmd != "" && !auth {
+						// the first hop was performed by the device, its answer came after the timeout
+						if cm.ErrClass(errs[i]) != "timeout" {
+							vio("c04:stalled-hop-no-timeout", "step %d %s from %s: %v", i, s, mode, errs[i])
+							return
+						}
+						want = append(want, cmd)
+						mode = next
+						continue
+					}
 				case "command":
 					target, own = desired, []string{"show x"}
 				case "commands":
@@ -302,7 +349,7 @@ func seqScenario(treeName string, t *cm.TreeDev, root, desired string, first ste
 		sort.Strings(levels)
 		alphabet := []step{{"command", ""}, {"commands", ""}, {"configs", ""}, {"config", ""}, {"nope", "nope"}, {"interactive", ""}}
 		for _, l := range levels {
-			alphabet = append(alphabet, step{"acquire", l}, step{"interactive", l})
+			alphabet = append(alphabet, step{"acquire", l}, step{"interactive", l}, step{"stalled", l})
 		}
 		seq := []step{first}
 		var rec func()
